@@ -4,7 +4,7 @@ k=$1; shift
 W=/root/scratch/sw$k; R=/root/scratch/sw${k}_repo
 rm -rf $W $R; mkdir -p $W
 rsync -a --exclude work --exclude replays --exclude harness/target /verif/ $W/
-git -C /repo worktree add --detach $R HEAD >/dev/null 2>&1
+git -C /repo worktree prune; git -C /repo worktree add --detach --force $R HEAD >/dev/null 2>&1 || { echo "cannot create $R"; exit 1; }
 cd $W && sed -i "s#path = \"/repo\"#path = \"$R\"#" harness/Cargo.toml && git update-index --skip-worktree harness/Cargo.toml
 for s in "$@"; do
   p=${s%%-*}
